@@ -10,7 +10,7 @@ from .. import bl, refimpl
 from ..core import Prop, Workload
 
 ONE = Decimal(1)
-SL = Decimal("1e-9")
+SL = Decimal("1e-12")
 
 
 def n_values():
@@ -38,7 +38,7 @@ def p_values():
     # next to the other rounding breakpoints of k (p = 2^-(j+0.5))
     for j in range(1, 12):
         b = 2.0 ** -(j + 0.5)
-        ps += [b * (1 - 1e-6), b, b * (1 + 1e-6), b * 0.99, b * 1.01]
+        ps += [b * (1 - 1e-6), b, b * (1 + 1e-6), b * 0.99, b * 1.01, b * (1 - 1e-10), b * (1 + 1e-10)]
     return ps
 
 
@@ -139,13 +139,29 @@ def wl_cms(ctx, rng, case):
     confs = [0.5, 0.75, 0.875, 1 - 2.0 ** -5, 1 - 2.0 ** -10, 0.9, 0.95, 0.99, 0.999, 0.001, 0.3, 0.51, 0.7500001, 0.8749999]
     errs = [1.0, 0.5, 0.25, 2 / 3, 2 / 7, 0.4, 0.1, 0.01, 0.001, 2 / 1000, 2 / 1001, 0.3333, 0.019999, 0.02, 0.020001, 1.9, 0.9999]
     todo = []
+    tiny = [3e-10, 1e-10, 1e-11, 5e-12]  # just beside a breakpoint: closer than any sane tolerance, farther than float noise
     if case.index == 0:
         todo = [(c, e) for c in confs for e in errs]
+    elif case.index == 1:
+        for N in (1, 2, 3, 7, 49, 100, 1000, 1001, 2500):
+            for d in tiny:
+                todo += [(0.9, 2 / N * (1 - d)), (0.9, 2 / N * (1 + d))]
+        for k in range(1, 17):
+            for d in tiny:
+                b = 1 - 2.0 ** -k
+                todo += [(b * (1 + d), 0.1), (b * (1 - d), 0.1)]
+        todo = [(c, e) for c, e in todo if 0 < c < 1]
     else:
         for _ in range(60):
             r = rng.random()
             c = rng.choice(confs) if r < 0.3 else (1 - 2.0 ** -rng.randint(1, 16) if r < 0.5 else rng.uniform(0.01, 0.99999))
             e = rng.choice(errs) if rng.random() < 0.3 else (2 / rng.randint(1, 3000) if rng.random() < 0.5 else rng.uniform(0.0008, 1.99))
+            if rng.random() < 0.25:
+                d = rng.choice(tiny) * rng.choice([1, -1])
+                if rng.random() < 0.5:
+                    e = 2 / rng.randint(1, 3000) * (1 + d)
+                else:
+                    c = min(0.9999999, (1 - 2.0 ** -rng.randint(1, 16)) * (1 + d))
             todo.append((c, e))
     case.desc = {"kind": "count-min", "n_pairs": len(todo)}
     for conf, err in todo:
@@ -180,10 +196,18 @@ def wl_cuckoo(ctx, rng, case):
             for bits in range(2, 33):
                 e = 2 * b / 2.0**bits
                 todo += [(e, b), (e * (1 + 1e-6), b), (e * (1 - 1e-6), b)]
+    elif case.index == 1:
+        for b in (1, 2, 3, 4, 8):
+            for bits in (2, 3, 8, 9, 16, 24, 31, 32):
+                for d in (3e-10, 1e-10, 1e-11):
+                    e = 2 * b / 2.0**bits
+                    todo += [(e * (1 + d), b), (e * (1 - d), b)]
     else:
         for _ in range(60):
             b = rng.choice([1, 2, 3, 4, 5, 6, 7, 8])
             e = 10 ** -rng.uniform(0.01, 8.5) if rng.random() < 0.7 else rng.uniform(1e-6, 0.9)
+            if rng.random() < 0.2:
+                e = 2 * b / 2.0 ** rng.randint(2, 32) * (1 + rng.choice([3e-10, 1e-10, -1e-10, 1e-11, -1e-11]))
             todo.append((e, b))
     case.desc = {"kind": "cuckoo", "n_pairs": len(todo)}
     for err, b in todo:
@@ -226,7 +250,7 @@ PROP = Prop(
         Workload("cuckoo", wl_cuckoo, quick=20, thorough=2000),
     ],
     assumptions=["formulas evaluated in 60-digit decimal arithmetic on the exact values of the float inputs; either neighbour accepted when the exact "
-                 "argument of ceil/round is within 1e-9 (relative) of a breakpoint",
+                 "argument of ceil/round is within 1e-12 (relative) of a breakpoint (float noise is ~1e-15; a tolerance-style rounding bug is >= 1e-10)",
                  "filters above 400 000 bits are sized through the class-level sizing routine without allocating the array"],
     required=["bloom.configs_checked", "bloom.configs_constructed", "bloom.reload_geometry_checks", "cms.configs_checked", "cuckoo.configs_checked"],
 )
